@@ -71,7 +71,8 @@ RULE = ("A: every assignment of {absent, 22 behaviours (incl. required / at-leas
         "named like section headings; H: all two-step histories of one-rule sets (fresh objects / same broker / same "
         "evaluator); B: every response class x key shape x kwarg name x payload kind x size limit-2..limit+2, "
         "limit 0. Non-trivial: at least two rules located (A, W, D, H), options hid one rule and showed one (S), "
-        "validation or the limit fired (B), always for T / K")
+        "validation or the limit fired (B), always for T / K; I: every behaviour / dependency situation of a rule "
+        "registered with dr.add_ignore x marker in the broker or not (non-trivial when the marker is present)")
 ASSUMPTIONS = [
     "rule bodies are callables decorated by the real @rule whose hash is their palette index, so the engine runs "
     "them in index order in every process (measured: counter cases_bodies_not_run_in_slot_order); the oracle is "
@@ -365,7 +366,11 @@ def _pal():
             fn = mkrule(idx, deco, deps)
             rules[(idx, deco)] = fn
             graphs[(idx, deco)] = dr.get_dependency_graph(fn)
-    _PAL = {"rules": rules, "graphs": graphs}
+    def marker():
+        return "marker"
+    marker.__module__ = MODS["A"]
+    setattr(sys.modules[MODS["A"]], "marker", marker)
+    _PAL = {"rules": rules, "graphs": graphs, "marker": component()(marker)}
     return _PAL
 
 
@@ -493,11 +498,30 @@ def _execute(case):
     _ST["calls"] = []
     broker = drv = None
     resp, err = None, None
+    # "ignore": indices of rules registered with dr.add_ignore(rule, marker); "marker": the marker component holds a
+    # value in the broker before the evaluation starts (the way an execution context does)
+    pal = _pal()
+    ignoring = [pal["rules"][(idx, deco)] for idx, _, deco in present_rules(case) if idx in (case.get("ignore") or [])]
+    try:
+        for fn in ignoring:
+            dr.add_ignore(fn, pal["marker"])
+        return _execute_steps(case, steps, history, broker, drv, resp, err)
+    finally:
+        for fn in ignoring:
+            dr.IGNORE[fn].discard(pal["marker"])
+            if not dr.IGNORE[fn]:
+                dr.IGNORE.pop(fn, None)
+
+
+def _execute_steps(case, steps, history, broker, drv, resp, err):
+    from insights.core import dr
     for n, desc in enumerate(steps):
         last = n == len(steps) - 1
         graph, disabled = _setup(desc)
         if broker is None or history == "fresh":
             broker = dr.Broker()
+            if case.get("marker"):
+                broker[_pal()["marker"]] = "marker"
         if drv is None or history != "same-evaluator":
             drv = _Driver(case, broker)
         try:
@@ -575,9 +599,12 @@ def _judge(case, obs, sel):
     show_all = skips_shown and types_ == set(IMPL_TYPES)
     mode = "accounting" if show_all else "selection"
     names = dict((rule_name(idx), idx) for idx, _, _ in present)
+    ignored = set(case.get("ignore") or []) if case.get("marker") else set()
 
     def feats_of(kind, idx=None, **kw):
         f = {"driver": driver, "kind": kind}
+        if idx in ignored:
+            f["ignored"] = True
         if history:
             f["history"] = history
             if idx is not None:
@@ -625,7 +652,13 @@ def _judge(case, obs, sel):
         waits_for = None
         if RULES[idx][2] == "on_rule" and rule_name(0) not in obs["in_broker"]:
             waits_for = rule_name(0)               # its dependency (another rule) holds no value: skip entry
-        if waits_for is not None or kind in UNMET_KINDS:
+        if idx in ignored:
+            # registered with add_ignore and the marker is in the broker: a deliberate skip whatever its dependency
+            # situation or body - no entry, no skip entry, no exception (and no metadata key)
+            expected, hideable = [], False
+            if kind == "metadata_key" and _same(resp.get(key), "v%d" % idx):
+                found.append("metadata_key")
+        elif waits_for is not None or kind in UNMET_KINDS:
             expected = ["skip:skips"] if skips_shown else []
             hideable = True
         elif kind in KEYED or kind == "none":
@@ -1020,6 +1053,18 @@ def small_cases(tier):
             rules = [["metadata_key:" + name, "p"], [partner, "tl"] if partner else None]
             for c in with_drivers({"part": "K", "rules": rules}):
                 yield c
+    # I: rules registered with dr.add_ignore x marker in the broker or not x every behaviour / dependency situation
+    for bx in BEHS:
+        for marker in (True, False):
+            for rules, ignore, extra in (([[bx, "p"], None], [0], []), ([[bx, "p"], ["fail:K1", "tl"]], [0], []),
+                                         ([[bx, "p"], ["fail:K1", "tl"]], [0, 1], []),
+                                         ([["fail:K1", "p"], [bx, "tl"]], [1], []),
+                                         ([[bx, "p"]], [0], [[YDEP, "fail:K1"]])):
+                desc = {"part": "I", "rules": rules, "ignore": ignore, "marker": marker}
+                if extra:
+                    desc["extra"] = extra
+                for c in with_drivers(desc):
+                    yield c
     # H: two-step histories in one process
     for bx in BEHS:
         for by in BEHS:                      # fresh broker and evaluator: the second case must not see the first
@@ -1154,7 +1199,8 @@ def run_unit(unit, tier):
             if k % unit["of"] != unit["shard"]:
                 continue
             vio, info = check_rules_case(case)
-            nontrivial = info["located"] >= 2 if case["part"] in ("D", "H") else True
+            nontrivial = info["located"] >= 2 if case["part"] in ("D", "H") else \
+                (bool(case.get("marker")) if case["part"] == "I" else True)
             _record(res, case, vio, nontrivial, "%s:%s" % (case["part"], ",".join(sorted(info["places"]))))
             res.stat("cases_family_%s" % case["part"], 1)
             if k < unit["of"]:
